@@ -409,6 +409,42 @@ func init() {
 				g.Emit("encinto", strconv.Itoa(len(prior)+g.R.Intn(40)), hexArg(prior), "0", v)
 			}
 		}
+		// struct fields with tag options (,string on string / int / bool / float / pointer fields, omitempty),
+		// string values with escapes, []byte (base64), a map with an escaped key, nested pointers:
+		// T <s> <i>; <t|f> <o> <oi>; <y> <mk> <mv> <p|n> <ps|n>     W <f64 bits>; <f32 bits>; <u8>;
+		hx := func(x string) string { return "s" + ownHexOr(x) + ";" }
+		tagged := []string{
+			"T" + hx("say \"hi\"") + "0;f" + hx("") + "0;" + hx("") + hx("k") + hx("v") + "nn",
+			"T" + hx("a\\b") + "-5;t" + hx("") + "0;" + hx("\x01\x02\xff") + hx("k\"") + hx("v\u00e9") + "n" + hx("A\""),
+			"T" + hx("\x01") + "9223372036854775807;t" + hx("o\"") + "7;" + hx("hello") + hx("\\") + hx("\n") + hx("p\"\\") + hx("\x1f\u4e2d"),
+			"T" + hx("") + "0;f" + hx("") + "0;" + hx("") + hx("") + hx("") + "nn",
+			"T" + hx("\u00e9\u4e2d\"") + "-9223372036854775808;f" + hx("\u4e2d") + "-1;" + hx("ab") + hx("\t") + hx("\"") + hx("") + hx(""),
+			"T" + hx("plain") + "1;t" + hx("") + "0;" + hx("a") + hx("key") + hx("val") + "n" + hx("plain"),
+			"T" + hx("\"") + "1;t" + hx("") + "0;" + hx("abc") + hx("k") + hx("v") + hx("x") + hx("\""),
+			"T" + hx("\r\n\t") + "12;f" + hx("<&>") + "3;" + hx("\x00") + hx("<") + hx("\u2028") + "n" + hx("\\\\"),
+			"[T" + hx("q\"q") + "0;f" + hx("") + "0;" + hx("") + hx("k") + hx("v") + "nn" + "T" + hx("\\") + "0;t" + hx("") + "0;" + hx("") + hx("k") + hx("v") + "n" + hx("\"") + "]",
+			"m" + ownHexOr("k\"\\") + ";T" + hx("z\"") + "0;f" + hx("") + "0;" + hx("") + hx("k") + hx("v") + "nn",
+		}
+		floats := []string{
+			"W3ff8000000000000;c2c80000;0;", "Wffefffffffffffff;7f7fffff;255;", "W0000000000000001;00000001;7;", "W4415af1d78b58c40;3dcccccd;100;",
+		}
+		for _, v := range tagged {
+			for c := 0; c <= 160; c++ {
+				g.Emit("encinto", strconv.Itoa(c), "-", "0", v)
+			}
+			for k := 0; k < 4; k++ {
+				prior := ownDirtyPrior(g, 5)
+				g.Emit("encinto", strconv.Itoa(len(prior)+g.R.Intn(120)), hexArg(prior), "0", v)
+			}
+		}
+		for vi, v := range floats {
+			for c := 0; c <= 160; c++ {
+				if g.Tier == "quick" && (c+vi)%2 == 1 {
+					continue
+				}
+				g.Emit("encinto", strconv.Itoa(c), "-", "0", v)
+			}
+		}
 	})
 }
 
